@@ -86,6 +86,12 @@ def avar(xs, ms):
 
 
 def sqrt_def(x):
+    """square root as a defined value.  Inside an exploration the radicand is first simplified under the path
+    condition and the executor's sqrt table is used, so that the reference and the implementation share ONE
+    value whenever their radicands are the same polynomial (congruence: equal arguments, equal roots)."""
+    c = symx.CTX
+    if c is not None:
+        return c.sqrt(c.fold(x)), z3.BoolVal(True)
     r = z3.Real('ref_sqrt!%d' % next(_cnt))
     return r, z3.And(r >= 0, r * r == x)
 
